@@ -86,6 +86,21 @@ impl<T> vstd::std_specs::core::IndexSpecImpl<TermIndex> for TermVec<T> {
 //@macro NTI IDX create_index invoked_in=IDX index=NonTermIndex collection=NonTermVec
 //@struct NTI NonTermIndex derive=Copy,Clone
 //@end
+//@struct NTI NonTermVec
+//@end
+impl<T> vstd::std_specs::core::IndexSpecImpl<NonTermIndex> for NonTermVec<T> {
+    open spec fn index_req(&self, index: &NonTermIndex) -> bool { index.0 < self.0@.len() }
+}
+//@impl NTI /^impl < T > Index < NonTermIndex > for NonTermVec < T >/
+//@  type Output
+//@  fn index ret=r
+//@  |             ensures *r == self.0@[index.0 as int],
+//@end
+//@allow external_body NonTermVec::index_mut: the same one-line wrapper as TermVec::index_mut, same contract
+//@impl NTI /^impl < T > IndexMut < NonTermIndex > for NonTermVec < T >/
+//@  fn index_mut ret=r xbody
+//@  |             ensures *r == old(self).0@[index.0 as int], final(self).0@ == old(self).0@.update(index.0 as int, *final(r)),
+//@end
 
 // ---- the real types the range reads, projected to the fields it mentions (R-PROJ) --------------------------------------
 //@enum GRM Associativity
@@ -104,7 +119,7 @@ impl<T> vstd::std_specs::core::IndexSpecImpl<TermIndex> for TermVec<T> {
 //@end
 //@struct SET Settings fields=prefer_shifts,prefer_shifts_over_empty,parser_algo
 //@end
-//@struct TBL LRState fields=grammar,max_prior_for_term,actions
+//@struct TBL LRState fields=idx,grammar,max_prior_for_term,actions,gotos,symbol
 //@end
 //@struct TBL LRItem fields=prod,prod_len,position
 //@end
@@ -327,6 +342,11 @@ proof fn lemma_resolve_keeps_cell_wf(g: &Grammar, s: &Settings, mp: Map<TermInde
 //@  fn nonterm_to_symbol_index ret=r
 //@  |         requires index.0 + self.terminals.0@.len() <= usize::MAX,
 //@  |         ensures r.0 == index.0 + self.terminals.0@.len(), // [C01]
+//@  fn symbol_to_nonterm_index ret=r
+//@  |         requires index.0 >= self.terminals.0@.len(),
+//@  |         ensures r.0 == index.0 - self.terminals.0@.len(), // [C01]
+//@  fn is_nonterm ret=r
+//@  |         ensures r == (index.0 >= self.terminals.0@.len()), // [C01]
 //@  fn symbol_to_term ret=r
 //@  |         requires index.0 < self.terminals.0@.len(),
 //@  |         ensures *r == self.terminals.0@[index.0 as int],
@@ -356,6 +376,32 @@ spec fn is_aug(g: &Grammar, aug: Seq<SymbolIndex>, prod: &Production) -> bool {
 //@allow assume_specification <[T]>::contains returns whether some element equals the argument (std dependency; ASSUMED for the element type used here, SymbolIndex, whose derived == is equality of the wrapped usize)
 pub assume_specification<T: PartialEq> [<[T]>::contains] (s: &[T], x: &T) -> (r: bool)
     ensures r == s@.contains(*x);
+
+// ---- C01: SHIFT / GOTO placement -- the transition calc_states found is recorded under its symbol --------------------------------
+//@lift GTB goto_block
+//@impl GTB /^impl < 'g , 's > LRTable < 'g , 's >/
+//@  fn goto_block
+//@  |         requires
+//@  |             target_state_symbol == new_state.symbol,
+//@  |             old(state).actions.0@.len() == self.grammar.terminals.0@.len(),
+//@  |             // every grammar symbol is a terminal or a non-terminal of the grammar (grammar builder)
+//@  |             target_state_symbol.0 < self.grammar.terminals.0@.len() + old(state).gotos.0@.len(),
+//@  |         ensures
+//@  |             final(state).max_prior_for_term == old(state).max_prior_for_term,
+//@  |             // [C01] a transition on a terminal becomes SHIFT(target) in that terminal's cell -- appended, nothing removed -- and leaves
+//@  |             // every other cell and every GOTO alone; a transition on a non-terminal becomes GOTO(target) under that non-terminal and
+//@  |             // leaves every other GOTO and every action cell alone
+//@  |             target_state_symbol.0 < self.grammar.terminals.0@.len() ==> {
+//@  |                 &&& final(state).gotos == old(state).gotos
+//@  |                 &&& final(state).actions.0@.len() == old(state).actions.0@.len()
+//@  |                 &&& forall|t: int| 0 <= t < old(state).actions.0@.len() ==> (#[trigger] final(state).actions.0@[t])@ ==
+//@  |                     (if t == target_state_symbol.0 { old(state).actions.0@[t]@.push(Action::Shift(target_state_idx)) } else { old(state).actions.0@[t]@ })
+//@  |             }, // [C01]
+//@  |             target_state_symbol.0 >= self.grammar.terminals.0@.len() ==> {
+//@  |                 &&& final(state).actions == old(state).actions
+//@  |                 &&& final(state).gotos.0@ == old(state).gotos.0@.update(target_state_symbol.0 - self.grammar.terminals.0@.len(), Some(target_state_idx))
+//@  |             }, // [C01]
+//@end
 
 //@lift AGB aug_block
 //@impl AGB /^impl < 'g , 's > LRTable < 'g , 's >/
